@@ -2,12 +2,13 @@
    C19: IG Core and IG Extended differ only in how nested statements are shown.
    Model: Model/Tabular.v.  PARTIAL: proved is the clause "IG Core adds no rows" for every statement, table and
    option setting (no nested statement is ever registered when the switch is off, so the exported table is exactly
-   the statement's own rows, one per element of the product); that the own rows coincide outside the reference
+   the statement's own rows, one per element of the product) and the clause "same top-level atomic statements" as far
+   as their number and identifiers go; that the own rows coincide outside the reference
    cells, that IG Extended adds one row group per nested statement, and that the IG Core reference cell contains
    every value of the nested statements are evaluated on the implementation's pairs of tables on every run and
    tied to the model by the cell-exact correspondence. *)
 From Coq Require Import List Arith.
-From IGP Require Import Base.Str Base.Outcome Model.Tree Model.Odo Model.Leaves Model.Link Model.Tabular Proofs.CoreExtProof Gen.Wiring.
+From IGP Require Import Base.Str Base.Outcome Model.Tree Model.Odo Model.Leaves Model.Link Model.Tabular Proofs.CoreExtProof Proofs.RowIds Proofs.SameRows Gen.Wiring.
 Import ListNotations.
 
 Theorem C19_core_adds_no_rows : forall C f n anno links sid rows, t_ext C = false ->
@@ -15,6 +16,16 @@ Theorem C19_core_adds_no_rows : forall C f n anno links sid rows, t_ext C = fals
   exists s perms, stmt_of_node n = Ok s /\ odometer (stmt_leaf_refs (tt_leaf tab_T) s) = Ok perms /\ length rows = length perms.
 Proof. exact (fun C f n anno links sid rows H => core_adds_no_rows tab_T C H f n anno links sid rows). Qed.
 Print Assumptions C19_core_adds_no_rows.
+
+(* the top-level atomic statements are the same in both modes (and under every other option): the row loop writes the same
+   number of own rows with the same identifiers whatever the configuration *)
+Theorem C19_same_top_level_rows : forall C1 C2 s anno1 anno2 sl1 sl2 rows lms1 lms2 multi reg1 reg2 sid out1 out2 r1 r2,
+  Forall (Forall lref_safe) rows ->
+  rows_loop tab_T C1 s anno1 sl1 rows lms1 multi 0 reg1 sid [] = Ok (out1, r1) ->
+  rows_loop tab_T C2 s anno2 sl2 rows lms2 multi 0 reg2 sid [] = Ok (out2, r2) ->
+  length out1 = length out2 /\ map (fun r => rget r K_ID) out1 = map (fun r => rget r K_ID) out2.
+Proof. exact (own_rows_same_in_every_mode tab_T). Qed.
+Print Assumptions C19_same_top_level_rows.
 
 (* non-vacuity: a statement with a nested activation condition: 1 row in IG Core, 2 rows in IG Extended *)
 Example C19_example :
